@@ -607,6 +607,12 @@ impl Drop for Pause {
     }
 }
 
+/// A new call into the arena starts inside the current window (harness closures that allocate
+/// call this): the bounded-retry counter is per call, not per window.
+pub fn new_call_in_window() {
+    let _ = TLS.try_with(|t| t.win_refused.set(0));
+}
+
 /// did the last window exceed the bounded number of refused requests in one call?
 pub fn runaway() -> bool {
     TLS.with(|t| t.runaway.get())
